@@ -53,7 +53,67 @@ func (vc *VC) libCall(fr *frame, n *Node, x *ssa.Call, callee *ssa.Function, arg
 	case "(*sync.WaitGroup).Wait":
 		trust("sync.WaitGroup.Wait: writes of spawned goroutines become visible here")
 		if fr.goMods != nil {
+			type kept struct {
+				ptr string
+				typ types.Type
+				val string
+			}
+			var keep []kept
+			seen := map[ssa.Value]bool{}
+			for _, b := range fr.goReadOnly {
+				if seen[b] {
+					continue
+				}
+				seen[b] = true
+				// the parent must not have handed the cell to anything but closures either
+				parentOnly := true
+				if refs := b.Referrers(); refs != nil {
+					for _, r := range *refs {
+						switch rr := r.(type) {
+						case *ssa.DebugRef:
+						case *ssa.MakeClosure:
+							// every closure capturing the cell only loads from it
+							cf, _ := rr.Fn.(*ssa.Function)
+							if cf == nil || len(cf.AnonFuncs) > 0 {
+								parentOnly = false
+								break
+							}
+							for i, bb := range rr.Bindings {
+								if bb != b || i >= len(cf.FreeVars) {
+									continue
+								}
+								if frefs := cf.FreeVars[i].Referrers(); frefs != nil {
+									for _, fr2 := range *frefs {
+										if u, ok := fr2.(*ssa.UnOp); !ok || u.Op != token.MUL {
+											parentOnly = false
+										}
+									}
+								}
+							}
+						case *ssa.Store:
+							if rr.Addr != b {
+								parentOnly = false
+							}
+						case *ssa.UnOp:
+						default:
+							parentOnly = false
+						}
+					}
+				}
+				if !parentOnly {
+					continue
+				}
+				pv := vc.value(fr, n, b)
+				et := b.Type().Underlying().(*types.Pointer).Elem()
+				if !isCellType(et) {
+					continue
+				}
+				keep = append(keep, kept{pv.T, et, vc.load(st, pv.T, et)})
+			}
 			vc.havocMods(n, fr.goMods)
+			for _, k := range keep {
+				vc.store(n.st, k.ptr, k.typ, k.val)
+			}
 		}
 		vc.bindResult(n, x, sig, nil)
 		return true
